@@ -3,11 +3,11 @@
 From Coq Require Import Extraction ExtrOcamlBasic.
 From Coq Require Import ZArith QArith List.
 From Coq Require Import Qcanon.
-From PV Require Import Base.QUtil Base.Round Gen.GenShape Model.Shape Model.EventLib Model.Seq Model.Dedup Model.Signature Model.Md5.
+From PV Require Import Base.QUtil Base.Round Gen.GenShape Model.Shape Model.EventLib Model.Seq Model.Dedup Model.Signature Model.Md5 Gen.GenTimeShape Model.TimeShape.
 Extraction Language OCaml.
 Extraction "../ocaml/seq/model.ml"
   Qred Qplus Qmult Qminus Qdiv Qle_bool Qeq_bool
   rnd_he compress decompress quantise pack unpack_go cumsumQ
   Q2Qc round_spec round_row round_all core_init run step decode seq_step seq_run seq_dedup
   rnd_shape_key rnd_grad_key rnd_rf_key rnd_adc_key
-  sign split_sig write_file no_sub sig_tag md5_hex write_signed_md5.
+  sign split_sig write_file no_sub sig_tag md5_hex write_signed_md5 tt_regular.
